@@ -45,7 +45,21 @@ type cfgKnownEdge struct {
 	Note    string `json:"note"`
 }
 
+type cfgKnownAcq struct {
+	Func    string `json:"func"`
+	Lock    string `json:"lock"`
+	Finding string `json:"finding"`
+	Note    string `json:"note"`
+}
+
 type config struct {
+	// Gates maps a lock class to the lock class that gates it: every
+	// acquisition of the lock is made with the gate held (checked), so that an
+	// acquisition under the exclusively held gate cannot block.
+	Gates map[string]string `json:"gates"`
+	// KnownAcqs are reported findings: acquisitions of a gated lock without
+	// its gate.
+	KnownAcqs []cfgKnownAcq `json:"known_acqs"`
 	// KnownEdges are reported lock-order findings of the current tree.
 	KnownEdges []cfgKnownEdge `json:"known_edges"`
 	Packages []string  `json:"packages"`
@@ -120,10 +134,23 @@ type callSite struct {
 	pos    string
 }
 
+type acqSite struct {
+	fn     string
+	class  int
+	shared []int
+	excl   []int
+	pos    string
+	top    bool
+	init   bool
+	// nonLeaf: something may be acquired while this hold lasts.
+	nonLeaf bool
+}
+
 type pendingEdge struct {
 	may    []int
 	callee *types.Func
 	pos    string
+	rows   []*acqSite
 }
 
 type access struct {
@@ -184,6 +211,8 @@ type analysis struct {
 	litCallees   map[string]int
 	addrTaken    map[string]bool
 	dynAll       map[string]int
+	acqSites     []*acqSite
+	exemptAcqs   map[string]bool
 }
 
 func shortPkg(p string) string { return strings.TrimPrefix(p, modPrefix) }
@@ -328,6 +357,8 @@ func (a *analysis) class(name string, rw bool) *lockClass {
 	return c
 }
 
+func (a *analysis) gateOf(class string) string { return a.cfg.Gates[class] }
+
 func (a *analysis) pos(p token.Pos) string {
 	ps := a.fset.Position(p)
 	fn := ps.Filename
@@ -356,6 +387,8 @@ func (a *analysis) reset() {
 	a.litCallees = nil
 	a.addrTaken = map[string]bool{}
 	a.dynAll = map[string]int{}
+	a.acqSites = nil
+	a.exemptAcqs = map[string]bool{}
 }
 
 func (a *analysis) walkAll() {
